@@ -684,3 +684,5 @@ for _p in ("C13", "C05"):
     PROPS[_p]["proofs"] = PROPS[_p]["proofs"] + ["Bmc.Proofs.C13Source"]
     PROPS[_p]["claim"] += (" transport_source (Proofs/C13Source.lean, regenerated fact): the UDP transport (internal/pkg/transport: New, Send, Close, Address, the struct's fields) as it stands in the source on this run is the text "
                            "the time model's assumption about Send (one write, one read, both under the context's deadline) was written against.")
+for _p in ("C13", "C19", "C05"):
+    PROPS[_p]["proofs"] = PROPS[_p]["proofs"] + ["Bmc.Proofs.SourcePins"]
